@@ -23,6 +23,11 @@ def canon_vars(v, _seen=None):
     return str(v)
 
 
+def has_cycle(variables):
+    """a variable that contains itself (e.g. `@v.k = @v`) cannot be written to vars.json"""
+    return "<cycle>" in json.dumps(canon_vars(variables))
+
+
 def has_recursion_error(*outs):
     for o in outs:
         if o.get("raised") == "RecursionError" or any(e[1] == "RecursionError" for e in (o.get("errors") or [])):
